@@ -47,7 +47,7 @@ Proof.
 Qed.
 
 Lemma floor_from_finding fs f k name :
-  In f fs -> f_sev f = name -> doc_rank (finding_sev (mkFinding "" name "")) = k ->
+  In f fs -> f_sev f = name -> doc_rank (finding_sev (sevf name)) = k ->
   k <= doc_rank (verdict fs).
 Proof.
   intros Hin Hn Hk. rewrite <- Hk, <- (rank_of_name f name Hn). apply verdict_ge. exact Hin.
